@@ -5,7 +5,8 @@
    assignment (a latency assignment only selects an interleaving of the visible events). *)
 From Oras Require Import Base.Prelude Generated.GC04 Model.CopySpec Model.CopyTop Model.CopyOpt
   Proofs.CopySpec Proofs.CopyAcct Proofs.CopyOpt Proofs.CopyAbort.
-From Oras Require Import Model.CopyHold Proofs.CopyHold Proofs.CopyCode.
+From Oras Require Import Model.CopyHold Proofs.CopyHold Proofs.CopySrcOrder.
+From Oras Require Model.CopyCancel.
 Local Open Scope nat_scope.
 From Oras Require Model.CopyImpl Proofs.CopyImplBase Properties.C02_protocol Proofs.CopyPermitsFinal.
 
@@ -337,6 +338,15 @@ Theorem C04_overlay_refines_any_callbacks :
     accepts_opt_h cs g c d0 tr = Some (st, full) -> accepts_opt cs g c d0 tr = Some (st, full).
 Proof. exact accepts_opt_h_accepts_opt. Qed.
 Print Assumptions C04_overlay_refines_any_callbacks.
+
+(* ... also under C01's cancellation layer (Model/CopyCancel.v: the caller's context ends), which the
+   shared runner steps through: the overlay's version of it accepts nothing the layer rejects *)
+Theorem C04_overlay_refines_cancellation :
+  forall (cs : cbset) (g : graph) (c : cfg) (d0 : list node) (tr : list CopyCancel.cevent)
+         (r : CopyCancel.cstate * list event),
+    caccepts_opt_h cs g c d0 tr = Some r -> CopyCancel.caccepts_opt cs g c d0 tr = Some r.
+Proof. exact caccepts_opt_h_caccepts_opt. Qed.
+Print Assumptions C04_overlay_refines_cancellation.
 
 (* at every instant at most K permits are held, and the source reads and destination operations in
    flight are covered by the permits held *)
